@@ -423,6 +423,7 @@ int x_close(XSock *x) {
     if (!x || x->closed || !x->s) return 0;
     int rc;
     x->closed_after_flush = !x->is_server && !x->terminal() && !x->saw_epipe && (!x->nonblocking || x->finish_ok_since_send || x->sent_ok + x->stream_sent == 0);
+    if (XO.check_counters && !x->is_server && judged(x)) x->final_valid = x_read_counters(x, x->final_cnt);
     {
         ApiScope a("xcm_close", x, x->nonblocking);
         cur()->close_send_truncated = false;
